@@ -17,15 +17,14 @@ theorem C01_every_parsed_expression_nodated (s : String) (e : Expr) (h : Parser.
   C01_schedule_refines_spec_nodated ctx e d (OH.Proofs.SynTotal.parse_string_ok_wf s e h) h1 h2 hnd
 
 /-- **C01 for every parsed expression whose dated ranges are in the rule-level class** `exprDatedPlain`
-(dated ranges without offsets, Easter with offsets up to 70 days, any offset ≤ 100 000 days on a bound
-that carries a year) -/
+(every dated range with a defined meaning and day offsets within ±100 000 days — whatever the size of the
+shift relative to a year, since the pairing windows are centred on the year of `d - day offset`) -/
 theorem C01_every_parsed_expression_plain (s : String) (e : Expr) (h : Parser.parse s = .ok e)
     (hpl : exprDatedPlain e = true) (ctx : Ctx) (d : Int) (h1 : dateStart ≤ d) (h2 : d < dateEnd) :
     ∃ rs, daySchedule ctx e d = .ok rs ∧ c01Holds ctx e d rs = true :=
   C01_schedule_refines_spec_plain ctx e d (OH.Proofs.SynTotal.parse_string_ok_wf s e h) h1 h2 hpl
 
-/-- and for the day-level class `exprDatedSafe e d` (yearless bounds whose total shift stays within
-about a year) -/
+/-- and for the day-level class `exprDatedSafe e d` (now the same class: `exprDatedSafe_iff_plain`) -/
 theorem C01_every_parsed_expression_window (s : String) (e : Expr) (h : Parser.parse s = .ok e)
     (ctx : Ctx) (d : Int) (h1 : dateStart ≤ d) (h2 : d < dateEnd) (hds : exprDatedSafe e d = true) :
     ∃ rs, daySchedule ctx e d = .ok rs ∧ c01Holds ctx e d rs = true :=
